@@ -3,9 +3,11 @@ package props
 import (
 	"bufio"
 	"bytes"
+	"context"
 	"errors"
 	"fmt"
 	"io"
+	"os"
 
 	gots "github.com/Comcast/gots/v2"
 	"github.com/Comcast/gots/v2/packet"
@@ -57,7 +59,7 @@ func (c18) Info() core.Info {
 			"after an injected reader error the sink log may be any prefix covering at least the packets fully delivered before the failing Read; it must never contain a misaligned, duplicated or reordered packet",
 			"a sink that returns a short count without error is outside the statement: only integrity and order of what is delivered are checked after it",
 		},
-		RequiredProbes: []string{"frag_unaligned", "one_byte", "data_with_eof", "partial_tail", "sink_err_first", "sink_err_mid", "reader_err_mid_packet", "via_io_copy", "write_not_multiple", "write_multi_packet", "closer", "adapter_reused", "adapter_reused_after_partial_tail", "reader_is_writerto", "bufio_reader_smaller_than_a_packet", "stream_with_repeated_packets", "sink_err_full_count", "reader_fails_with_unexpected_eof", "sink_fails_with_eof_value", "seekable_reader_already_partly_read", "more_than_4gib_in_one_call", "sink_type_has_own_write_method"},
+		RequiredProbes: []string{"frag_unaligned", "one_byte", "data_with_eof", "partial_tail", "sink_err_first", "sink_err_mid", "reader_err_mid_packet", "via_io_copy", "write_not_multiple", "write_multi_packet", "closer", "adapter_reused", "adapter_reused_after_partial_tail", "reader_is_writerto", "bufio_reader_smaller_than_a_packet", "stream_with_repeated_packets", "sink_err_full_count", "reader_fails_with_unexpected_eof", "sink_fails_with_eof_value", "seekable_reader_already_partly_read", "empty_read_before_every_byte", "reader_fails_with_a_well_known_sentinel", "more_than_4gib_in_one_call", "sink_type_has_own_write_method"},
 	}
 }
 
@@ -162,7 +164,7 @@ func (c18) Gen(r *core.Rand, tier string) interface{} {
 	style := r.PickS("full", "frag", "frag", "one", "mixed", "mixed")
 	n := (s.Packets*188+s.Tail)/90 + 4
 	if style == "one" {
-		s.Default = "one"
+		s.Default = r.PickS("one", "one", "stutter")
 	} else {
 		s.Reads = parties.GenReadOps(r, r.Range(1, n), style, false)
 		if style == "frag" && r.Bool() {
@@ -173,7 +175,7 @@ func (c18) Gen(r *core.Rand, tier string) interface{} {
 		s.Reads = parties.GenReadOps(r, r.Range(0, n), r.PickS("full", "frag", "mixed"), true)
 		s.Sink.FailAt = -1
 		if r.Chance(1, 3) {
-			as := r.PickS("ueof", "weof")
+			as := r.PickS("ueof", "weof", "closedpipe", "osclosed", "noprogress", "canceled", "deadline")
 			for i := range s.Reads {
 				if s.Reads[i].Kind == "err" || s.Reads[i].Kind == "hard_err" {
 					s.Reads[i].As = as // the reader's OWN error is io.ErrUnexpectedEOF, or wraps io.EOF
@@ -500,6 +502,9 @@ func (c18) Exec(script interface{}, c *core.Ctx) {
 		if c18Unaligned(s) {
 			c.Probe("frag_unaligned")
 		}
+		if s.Default == "stutter" {
+			c.Probe("empty_read_before_every_byte")
+		}
 		if s.Default == "one" {
 			c.Probe("one_byte")
 		}
@@ -572,6 +577,9 @@ func (c18) Exec(script interface{}, c *core.Ctx) {
 			}
 			if sr.FirstErr == io.ErrUnexpectedEOF {
 				c.Probe("reader_fails_with_unexpected_eof")
+			}
+			if sr.FirstErr == io.ErrClosedPipe || errors.Is(sr.FirstErr, os.ErrClosed) || sr.FirstErr == io.ErrNoProgress || sr.FirstErr == context.Canceled || sr.FirstErr == os.ErrDeadlineExceeded {
+				c.Probe("reader_fails_with_a_well_known_sentinel")
 			}
 			if err == sr.FirstErr { // identity: the reader's own error, whatever it wraps
 				return
